@@ -70,6 +70,9 @@ def make_client_class(env, addr2id):
         def get_many(self, keys, *a, **kw):
             return self._do(keys[0], {k: b"v" for k in keys})
 
+        def gets_many(self, keys, *a, **kw):
+            return self._do(keys[0], {k: (b"v", b"1") for k in keys})
+
         def set_many(self, values, *a, **kw):
             return self._do(next(iter(values)), [])
 
@@ -133,6 +136,28 @@ def replay(hist, n, ra, rt, dt, ignore_exc, variant):
             out.append({"e": "tick", "d": 1})
         elif step[0] == "health":
             env.health[step[1]] = step[2]
+        elif len(step) > 2:
+            # a multi-key call whose keys prefer different servers
+            ks = list(step[1:])
+            ncall += 1
+            op = ["set_many", "get_many", "gets_many"][(variant + ncall) % 3]
+            out.append({"e": "call", "keys": ks, "op": op})
+            del env.events[:]
+            names_ = ["k%d-m%d" % (k, i) for i, k in enumerate(ks)]
+            try:
+                if op == "set_many":
+                    hc.set_many({n_: b"v" for n_ in names_})
+                elif op == "get_many":
+                    hc.get_many(names_)
+                else:
+                    hc.gets_many(names_)
+            except Exception as e:   # noqa
+                out += env.events
+                x = env.raised.get(id(e))
+                out.append({"e": "raise", "x": x if x is not None else ("all" if "All servers" in str(e) else "other:" + type(e).__name__)})
+            else:
+                out += env.events
+                out.append({"e": "ret"})
         else:
             k = step[1]
             ncall += 1
@@ -172,7 +197,10 @@ def random_hist(rnd, n, length):
     h = []
     for _ in range(length):
         r = rnd.random()
-        if r < 0.45:
+        if r < 0.1:
+            a, b = rnd.sample(range(1, n + 1), 2)
+            h.append(["call", a, b])
+        elif r < 0.45:
             h.append(["call", rnd.randrange(1, n + 1)])
         elif r < 0.8:
             h.append(["tick"])
@@ -187,7 +215,7 @@ def main(tier, rep):
     rnd = random.Random(common.seed())
     traces = []
     configs = [(2, ra, 1, 2, ign) for ra in (0, 1, 2) for ign in (False, True)] + [(2, 1, 1, 6, False), (2, 2, 1, 8, True)]
-    depth = 12 if tier == "quick" else 15
+    depth = 11 if tier == "quick" else 14
     for (n, ra, rt, dt, ign) in configs:
         cfg = f"""SPECIFICATION Spec
 CONSTANTS
@@ -198,6 +226,7 @@ CONSTANTS
   IgnoreExc = {'TRUE' if ign else 'FALSE'}
   Export = TRUE
   MaxDepth = {depth}
+  MultiKey = TRUE
 VIEW view
 INVARIANT MonitorOK
 CHECK_DEADLOCK FALSE
@@ -230,6 +259,7 @@ CONSTANTS
   IgnoreExc = FALSE
   Export = FALSE
   MaxDepth = 1000000
+  MultiKey = FALSE
 VIEW view
 INVARIANT MonitorOK
 CHECK_DEADLOCK FALSE
